@@ -335,7 +335,7 @@ func (w *c10World) request(status func(key string) int) {
 
 func c10prop(r *simkit.Run) {
 	rt := r.T
-	clock.Freeze(time.Unix(rapid.Int64Range(1_000_000_000, 2_000_000_000).Draw(rt, "epoch-s"), rapid.Int64Range(0, 999_999_999).Draw(rt, "epoch-ns")).UTC())
+	clock.Freeze(time.Unix(rapid.Int64Range(1_000_000_000, 4_400_000_000).Draw(rt, "epoch-s"), rapid.Int64Range(0, 999_999_999).Draw(rt, "epoch-ns")).UTC())
 	defer clock.Unfreeze()
 	w := &c10World{r: r, rating: map[string]float64{}, notReady: map[string]bool{}, errRate: map[string]int{}, lastAdjust: -1, outlierSince: -1, firstMiss: -1, start: clock.Now().UTC()}
 	w.scripted = rapid.IntRange(0, 3).Draw(rt, "meter") != 0
